@@ -150,6 +150,21 @@ func (c *c14call) run(o *c14objs, baseStr string) (res string) {
 	case "base.Clone":
 		cl := o.base.Clone()
 		return cl.Href(false) + "|" + cl.Search()
+	case "parser.Encode":
+		return o.parser.PercentEncodeString(c.a, c14sets[c.prof%len(c14sets)])
+	case "parser.Decode":
+		if d, ok := o.parser.(interface{ DecodePercentEncoded(string) string }); ok {
+			return d.DecodePercentEncoded(c.a)
+		}
+		return "n/a"
+	case "parser.ToASCII":
+		if d, ok := o.parser.(interface {
+			ToASCII(string, bool) (string, error)
+		}); ok {
+			a, err := d.ToASCII(c.a, c.prof%2 == 0)
+			return fmt.Sprint(a, "|", err != nil)
+		}
+		return "n/a"
 	case "profile.Parse":
 		return c14result(c14profiles[c.prof].Parse(c.a))
 	case "profile.ParseRef":
@@ -158,7 +173,11 @@ func (c *c14call) run(o *c14objs, baseStr string) (res string) {
 	return "?"
 }
 
-var c14kinds = []string{"url.Parse", "url.ParseRef", "parser.Parse", "parser.ParseRef", "base.Parse", "base.Parse", "base.ParseMutate", "base.ParseMutate", "base.getters", "base.String",
+// the codec methods of a shared Parser value are used with the package-level named sets
+var c14sets = []*url.PercentEncodeSet{url.C0PercentEncodeSet, url.FragmentPercentEncodeSet, url.QueryPercentEncodeSet, url.SpecialQueryPercentEncodeSet,
+	url.PathPercentEncodeSet, url.UserInfoPercentEncodeSet}
+
+var c14kinds = []string{"parser.Encode", "parser.Decode", "parser.ToASCII", "url.Parse", "url.ParseRef", "parser.Parse", "parser.ParseRef", "base.Parse", "base.Parse", "base.ParseMutate", "base.ParseMutate", "base.getters", "base.String",
 	"base.ValidationErrors", "base.Clone", "base.Clone", "profile.Parse", "profile.ParseRef"}
 
 // sharedObject names the shared object an operation touches (overlap evidence).
@@ -166,7 +185,7 @@ func sharedObject(kind string) string {
 	switch kind {
 	case "base.Parse", "base.ParseMutate", "base.getters", "base.String", "base.ValidationErrors", "base.Clone":
 		return "base"
-	case "parser.Parse", "parser.ParseRef":
+	case "parser.Parse", "parser.ParseRef", "parser.Encode", "parser.Decode", "parser.ToASCII":
 		return "parser"
 	case "profile.Parse", "profile.ParseRef":
 		return "profile"
@@ -201,10 +220,12 @@ func (c14) coldRound(ctx *core.Ctx, cs *core.Case) {
 		"http://1.2.3.4/", "http://0x7f.1/x", "http://[::1]/", "http://[1:0:0:2::3]:81/", "file:///C|/x", "http://h:80/", "http://h/?a=1&b=2", "a://%41/", "http://xn--nxasmq6b/", "http://a\u00adb/", "//1.2.3.4/x", "?a=b&c", "#f", "../x",
 		"http://ex%41mple.COM/", "http://a\xffb%ff.example/", "http://%ff\x7f/", "http://a b%ff/", "http://h/?a=%41&%42=c", "http://[::ffff:1.2.3.4]/", "http://h/%2e%2E/x"}
 	for i := range plan {
-		c := c14call{kind: gen.Pick(r, []string{"url.Parse", "url.ParseRef", "parser.Parse", "parser.ParseRef", "profile.Parse", "profile.Parse", "profile.ParseRef"}), prof: r.IntN(4)}
+		c := c14call{kind: gen.Pick(r, []string{"url.Parse", "url.ParseRef", "parser.Parse", "parser.ParseRef", "profile.Parse", "profile.Parse", "profile.ParseRef", "parser.Encode", "parser.Decode", "parser.ToASCII"}), prof: r.IntN(4)}
 		switch {
 		case i < 8 || r.IntN(4) == 0:
 			c.a = gen.Pick(r, lazyInputs)
+		case c.kind == "parser.ToASCII":
+			c.a = gen.Pick(r, []string{"ex\u00e4mple.COM", "xn--nxasmq6b", "a\u00adb", "a\u2260b", "EXAMPLE.com", "\u0130.example", "a..b", "xn--", "b\u00fccher.example"})
 		case c.kind == "url.Parse" || c.kind == "parser.Parse" || c.kind == "profile.Parse":
 			c.a = gen.Input(r)
 		default:
@@ -307,6 +328,9 @@ func (m c14) Exec(ctx *core.Ctx, cs *core.Case) {
 				c.a = gen.Input(r)
 			} else {
 				c.a = gen.Reference(r)
+			}
+			if c.kind == "parser.ToASCII" {
+				c.a = gen.Pick(r, []string{"ex\u00e4mple.COM", "xn--nxasmq6b", "a\u00adb", "a\u2260b", "EXAMPLE.com", "\u0130.example", "a..b", "xn--", "b\u00fccher.example"})
 			}
 			if c.kind == "base.ParseMutate" && r.IntN(2) == 0 {
 				c.a = gen.Pick(r, []string{"#f", "", "?q", "#", "x", "../y", "//h2/p"})
